@@ -60,6 +60,8 @@ pub struct BatchCfg {
     pub components: Value,
     /// Extra args passed to the worker (variant tags etc.)
     pub extra_env: Vec<(String, String)>,
+    /// Probes / fault kinds this property expects to hit; those still at zero are reported.
+    pub expected_probes: Vec<String>,
     /// Harness build variants the runs are spread over (run i uses variants[i % len]);
     /// empty = this binary for every run.
     pub variants: Vec<String>,
@@ -807,7 +809,14 @@ pub fn run_batch(cfg: BatchCfg) -> BatchReport {
             (k.clone(), json!({"distinct": v.len(), "labels": labels}))
         })
         .collect();
-    let zero_probes: Vec<String> = Vec::new();
+    let zero_probes: Vec<String> = cfg
+        .expected_probes
+        .iter()
+        .filter(|p| {
+            agg.probes.get(*p).copied().unwrap_or(0) == 0 && agg.faults.get(*p).copied().unwrap_or(0) == 0
+        })
+        .cloned()
+        .collect();
     let sim_time_s = agg.probes.get("sim_time_us").map(|us| *us as f64 / 1e6);
     let mut coverage = json!({
         "evaluations": agg.evaluations,
